@@ -19,13 +19,15 @@ MANIFEST = {
                   "with/without HRD delays (incl. the time code whose coded length is a multiple of 8, where the final 1 bit overflows "
                   "the exactly-sized buffer and is dropped); C17_passthrough: sei4/sei5/CEA-608/HEVC pic timing return the payload unchanged "
                   "whenever they return a message.",
-    "level_note": "Every link of the list round trip is proved (no link left to the correspondence alone). Trusted: Coq kernel, "
+    "level_note": "Every link of the list round trip is proved inside Coq (writer = escape of the plain serialisation, reader over the "
+                  "escaped stream, MoreRbspData): nothing of it is left to the correspondence alone. Trusted: Coq kernel, "
                   "extraction (ExtrOcamlBasic), OCaml/Go glue; the model/code correspondence is differential testing. io.Writer failures "
                   "and non-seekable readers are not modelled. The model's ReadBytes takes a shortcut when the announced size exceeds the "
-                  "whole input (error without looping). Typed messages: the theorems are stated on the bit-list form of the "
-                  "FixedSliceWriter output (spec_bytes: coded bits, zero padding, cut at the capacity Size()) and on a bit-list bits.Reader; "
-                  "the executable model runs the same op list through the C13 FixedSliceWriter model (fsw_bytes) and the driver checks "
-                  "fsw_bytes = spec_bytes = Go bytes on every case: that link (and bits.Reader = bit-list reads) is exercised by the "
+                  "whole input (error without looping). Typed messages: writers are op lists run through the C13 model of "
+                  "bits.FixedSliceWriter; that this equals the bit-list form (coded bits, zero padding, cut at the capacity Size()) is PROVED for "
+                  "canonical messages (C17_timecode_exec, C17_pic_timing_avc_exec) and additionally compared on every correspondence case; "
+                  "C17_typed_msgs_ok / C17_timecode_in_nalu compose the typed results with the list round trip. bits.Reader is modelled "
+                  "directly as reads on the payload's bit list (first failed read = error outcome): that link is exercised by the "
                   "correspondence, not proved. Out-of-domain values (more than 3 clocks, pict_struct > 8, clock/external time-offset "
                   "length mismatch, fields wider than their code) are not canonical: modelled and compared, not covered by the theorems. "
                   "Crash safety of the decoders on hostile payloads belongs to C16.",
@@ -59,9 +61,9 @@ def run(ctx):
     exe, model = build(ctx)
     pr = ctx.proofs("c17", "C17Theorems.v")
     # ---- correspondence
-    n = ctx.n(4000, 200000)
-    exh = ctx.n(3, 5)
-    nt = ctx.n(5000, 150000)
+    n = ctx.n(4000, 40000)
+    exh = ctx.n(3, 4)
+    nt = ctx.n(5000, 200000)
     rc, cases, e = sh2([exe, "corr", "-seed", str(ctx.seed), "-n", str(n), "-nt", str(nt), "-exh", str(exh)], timeout=3000)
     if rc != 0:
         raise common.CheckError("harness corr failed: " + e[-1000:])
@@ -100,7 +102,7 @@ def run(ctx):
     ctx.cov["samples"] += [l[:300] for l in lines[200:203]] + [l[:300] for l in lines[-3:]]
     ctx.log("correspondence: %d cases, %d mismatches" % (len(lines), len(mism)))
     # ---- search: the property itself on the implementation
-    ns = ctx.n(5000, 250000)
+    ns = ctx.n(5000, 200000)
     nst = ctx.n(20000, 1000000)
     rc, so, e = sh2([exe, "search", "-seed", str(ctx.seed), "-n", str(ns), "-nt", str(nst), "-exh", str(exh)], timeout=3000)
     if rc != 0:
